@@ -2,7 +2,7 @@
    Property::serialize) is what the reader parses (reader/…/raw_layout.rs RawProperty::parse),
    with the size the creator's own Property::size reports. *)
 From Coq Require Import List Arith NArith ZArith Bool Lia ZifyN ZifyBool ZifyNat.
-From Jbk Require Import Base.ListExtra Base.Bytes Base.Parser Format.Structs Content.Pack Dir.Layout.
+From Jbk Require Import Base.ListExtra Base.Bytes Base.Parser Base.Utf8 Format.Structs Content.Pack Dir.Layout.
 Import ListNotations.
 Open Scope N_scope.
 Ltac Zify.zify_post_hook ::= Z.div_mod_to_equations.
@@ -56,7 +56,7 @@ Definition raw_of (p : wprop) : rawprop :=
   | WPadding size => {| rp_size := size; rp_name := []; rp_kind := KPadding |}
   end.
 
-Definition wf_name (s : list N) := (length s <= 255)%nat.
+Definition wf_name (s : list N) := (length s <= 255)%nat /\ utf8_valid s = true.
 Definition wf_wprop (p : wprop) : Prop :=
   match p with
   | WVariantId name => wf_name name
@@ -76,8 +76,8 @@ Definition wf_wprop (p : wprop) : Prop :=
 
 Lemma p_pstring_ser s r : wf_name s -> p_pstring (ser_pstring s ++ r) = Ok (s, r).
 Proof.
-  intros H. unfold p_pstring, ser_pstring, wf_name in *. cbn [app].
-  rewrite p_u_1 by lia. cbn [bind]. rewrite Nat2N.id. now apply p_bytes_app.
+  intros [H U]. unfold p_pstring, ser_pstring in *. cbn [app].
+  rewrite p_u_1 by lia. cbn [bind]. rewrite Nat2N.id. rewrite p_bytes_app by reflexivity. cbn [bind]. now rewrite U.
 Qed.
 
 Ltac nibbles info ty data :=
